@@ -103,6 +103,12 @@ fn redirect_family(g: &mut G, ctx: &RunCtx) -> RunReport {
 fn scheme_change_family(g: &mut G, ctx: &RunCtx) -> RunReport {
     let http_only = g.chance(1, 2); // true: only http_proxy configured; false: only https_proxy
     let status = *g.pick(&[301u16, 302, 307, 308]);
+    // the two hops may also share host *and* port (http://origin.test:443/ -> https://origin.test/): still
+    // two schemes, two proxy decisions
+    let same_port = g.chance(1, 2);
+    if same_port {
+        g.probe("scheme-change-on-the-same-host-and-port");
+    }
     let sim = Sim::new(ctx.sim_config());
     let seen = Arc::new(Mutex::new(Seen::default()));
     sim.add_host("origin.test", vec!["10.0.0.1".parse().unwrap()]);
@@ -121,7 +127,22 @@ fn scheme_change_family(g: &mut G, ctx: &RunCtx) -> RunReport {
     {
         let s1 = seen.clone();
         sim.add_listener("10.0.0.1".parse().unwrap(), 80, lat, Some(Box::new(move |_i| Box::new(HttpPeer::new(Arc::new(redirecting), s1.clone())))));
-        sim.add_listener("10.0.0.1".parse().unwrap(), 443, lat, Some(Box::new(move |_i| silent())));
+        let s3 = seen.clone();
+        let mut n443 = 0;
+        sim.add_listener(
+            "10.0.0.1".parse().unwrap(),
+            443,
+            lat,
+            Some(Box::new(move |_i| {
+                n443 += 1;
+                // a plain-http first hop to port 443 is answered there (direct route only)
+                if same_port && !http_only && n443 == 1 {
+                    Box::new(HttpPeer::new(Arc::new(redirecting), s3.clone()))
+                } else {
+                    silent()
+                }
+            })),
+        );
         let s2 = seen.clone();
         let mut n = 0;
         sim.add_listener(
@@ -142,7 +163,7 @@ fn scheme_change_family(g: &mut G, ctx: &RunCtx) -> RunReport {
     let out = sim.run(|| {
         let pu = url::Url::parse("http://proxy.test:3128").unwrap();
         let pb = if http_only { attohttpc::ProxySettings::builder().http_proxy(pu) } else { attohttpc::ProxySettings::builder().https_proxy(pu) };
-        let _ = attohttpc::get("http://origin.test/start").proxy_settings(pb.build()).read_timeout(std::time::Duration::from_millis(100)).danger_accept_invalid_certs(true).send();
+        let _ = attohttpc::get(if same_port { "http://origin.test:443/start" } else { "http://origin.test/start" }).proxy_settings(pb.build()).read_timeout(std::time::Duration::from_millis(100)).danger_accept_invalid_certs(true).send();
     });
     let mut stats = Stats::default();
     stats.absorb(&out.history);
@@ -152,7 +173,7 @@ fn scheme_change_family(g: &mut G, ctx: &RunCtx) -> RunReport {
             Some(Err(m)) => return violation("panic", m.clone()),
             Some(Ok(())) => {}
         }
-        let want: [&str; 2] = if http_only { ["10.0.0.9:3128", "10.0.0.1:443"] } else { ["10.0.0.1:80", "10.0.0.9:3128"] };
+        let want: [&str; 2] = if http_only { ["10.0.0.9:3128", "10.0.0.1:443"] } else if same_port { ["10.0.0.1:443", "10.0.0.9:3128"] } else { ["10.0.0.1:80", "10.0.0.9:3128"] };
         let got: Vec<String> = out.history.conns.iter().map(|c| c.addr.to_string()).collect();
         if got.len() < 2 {
             return violation("scheme-change:hops", format!("connections {:?}", got));
@@ -175,7 +196,7 @@ fn scheme_change_family(g: &mut G, ctx: &RunCtx) -> RunReport {
     })();
     RunReport {
         verdict,
-        shape: format!("scheme-change/{}/{}", if http_only { "http-proxy-only" } else { "https-proxy-only" }, status),
+        shape: format!("scheme-change/{}/{}/same-port={}", if http_only { "http-proxy-only" } else { "https-proxy-only" }, status, same_port),
         nontrivial: true,
         stats,
         sched_tape: out.sched_tape,
